@@ -1023,6 +1023,89 @@ claim(
     "DESIGN.md §5.4 C29",
 )
 
+claim(
+    "C10",
+    "PARTIAL (by nature). Proved (Lean, Core/HB.lean + Props/C10.lean): over every execution of the protocol models "
+    "(Core/Conc.lean: any number of threads, any interleaving, futex parking/wake/time-out/spurious wake-up) projected to "
+    "traces of plain payload accesses and atomic operations carrying the memory order DECLARED at the program point, with "
+    "happens-before = (po U sw)+ as in C++20/RC11 (release sequences = a write followed by read-modify-writes; consume "
+    "and fences give no edge), there is NO data race on the payload of: the SPSC ring slots (C10_spsc_race_free: one "
+    "producer, one consumer, single and batch operations, any size), the MPMC ring slot elements (C10_mpmc_race_free: any "
+    "number of producers/consumers, per-slot sequence numbers, both directions), the AsyncRequest object "
+    "(C10_asyncreq_race_free), client data published through CompletionEvent (C10_event_race_free: one notifier that is "
+    "the only writer; readers read after wait/waitFor/completed observed completion) and through Latch "
+    "(C10_latch_race_free: participants write their own data before a single count_down/arrive_and_wait; readers read "
+    "after wait/try_wait/arrive_and_wait observed zero) - whenever the declared order at every program point passes "
+    "Trace.orderOK against binding.reqOrder, i.e. exactly the comparison the trace acceptor applies to every atomic "
+    "operation of the real code (C10_order_check_is_acceptors). Each non-relaxed entry the theorems use is necessary: "
+    "C10_<p>_order_needed gives, per entry, the source's table with THAT entry weakened to relaxed and a "
+    "contract-respecting execution with a race (28 entries; decided by evaluation of the relational definition). "
+    "C10_detector_sound: the vector-clock style detector the invariants are phrased with accepts no racy trace. "
+    "Tie: the dsched V harnesses of Event/Latch, AsyncRequest, MPMC, SPSC (+ harness/conc/c10_variants.cpp: every "
+    "push/pop overload of both rings), Chase-Lev, RWLock, DistributedRWLock, arena and pool allocator are re-run; the "
+    "declared order of each real-code atomic (reported by the TSan instrumentation of its call site) is compared with "
+    "the table; a weaker one is a C10 violation. Support (not proof): the whole library compiled with clang "
+    "-fsanitize=thread and a native stress harness (harness/native/c10_tsan.cpp) over pool, task sets, parallel_for, "
+    "for_each, futures, pipeline, graph executors, concurrent vector, rings, deque, locks, events, allocators, arena, "
+    "timed tasks (36 scenarios, plain payloads, one process per scenario); every ThreadSanitizer report is a violation. "
+    "A second oracle replays the dsched traces of the real SPSC / MPMC / AsyncRequest / Chase-Lev code through the "
+    "proved detector (dvdriver plug-in hbdet): a payload access not ordered by happens-before on a real trace is a "
+    "violation. Open findings on the unchanged tree (known_findings.json): the Chase-Lev slot races "
+    "(C10_chaselev_discarded_read_races, C10_chaselev_restore_store_races are the Lean witnesses), "
+    "ConcurrentObjectArena::numBuffers() reading a plain counter (patch in deliver/), and a pool destroyed while a "
+    "dispenso-internal thread is still in ThreadPool::schedule's epilogue (Future::then across pools, TimedTaskScheduler).",
+    "NOT covered / trusted: the rest of the library is only swept by TSan on the schedules that happen to run; "
+    "executions that are not sequentially consistent per atomic location (the theorems rule out every race that needs no "
+    "reordering of the atomic history itself); fence-based synchronisation (no fence edge in the model: the theorems "
+    "hold a fortiori, none of the five protocols relies on a fence for its payload); under the C++11/14 rule that "
+    "same-thread stores continue a release sequence there are more edges (theorems still hold; the Latch ntStore "
+    "necessity witness needs the C++20 rule). The Chase-Lev deque has NO payload theorem: its thief reads the slot before "
+    "the claiming CAS, a by-design racy read the source hides from TSan with IGNORE_READS/WRITES annotations, so plain "
+    "race freedom is false for it; only its declared orders are checked against the table of the SC proofs (C36). The "
+    "client side of CompletionEvent/Latch is a modelled contract (Proofs/HBEvent.lean), not code. RWLock / "
+    "DistributedRWLock / arena / pool-allocator tables are checked by the acceptor but their critical-section theorems "
+    "are not in this revision.",
+    "Lean 4 proof (happens-before model, detector soundness, per-protocol inductive invariants over all interleavings, "
+    "decided necessity witnesses) + declared-order trace validation under a deterministic scheduler + ThreadSanitizer sweep",
+    "DESIGN.md §5.7 C10",
+)
+
+claim(
+    "C11",
+    "PARTIAL (by nature). Proved (Lean): the ledger and bounds theorems of the modelled components, re-checked and "
+    "axiom-audited as C11 obligations - ConcurrentVector (C32_ledger, C32_all_destroyed, bucket index inside the bucket), "
+    "ring indices in range (C34_bounds, C35_indices_in_range, C36_bounds), ConcurrentObjectArena (C37_buffers_ledger, "
+    "indices inside allocated buffers, sequential and concurrent), SmallVector (C38_ledger, C38_all_destroyed, capacity, "
+    "alignment), OnceFunction (C39_exactly_once, C39_blocks_ledger), OpResult (C40_ledger, C40_all_destroyed), "
+    "PoolAllocator (C42_ledger, C42_balance_any, chunks inside slabs, exclusive) - and, in Props/C11.lean, the anchors the "
+    "property names: the packaged task closure of TaskSetBase::packageTask is destroyed exactly once when the pool "
+    "invokes it, whether or not the cancelled body was skipped (C11_packaged_task_destroyed_once); a OnceFunction that is "
+    "never invoked is released exactly once by cleanupNotRun (C11_never_invoked_released_by_cleanup); nothing is "
+    "destroyed twice and no spill block stays out once every object is empty (C11_no_double_destroy); and the negative "
+    "fact that there is no releasing destructor (C11_unconsumed_is_not_released), which is why a skipped body that is "
+    "itself a OnceFunction needs an explicit cleanupNotRun. Support (not proof): harness/native/c11_paths.cpp runs the "
+    "error paths the property names against the real library under ASan+UBSan+LSan (g++ 12) with ledger-counted "
+    "closures / elements / results, a per-size-class balance of SmallBufferAllocator chunks and allocation counting "
+    "through the sanitizer malloc hooks (blocks that survive two measured passes must belong to a documented "
+    "process-lifetime cache), one process per scenario (19 scenarios): throwing task bodies (TaskSet / "
+    "ConcurrentTaskSet, single / bulk / inline), cancellation with queued tasks, pool destruction and resize with queued "
+    "work, OnceFunction never invoked, pipelines whose stages throw or filter, futures whose functor throws or is never "
+    "run, TimedTask cancel / destruction, graph executors with exceptions, parallel_for / for_each bodies that throw; "
+    "every sanitizer report, ledger imbalance, chunk imbalance, unexplained allocation growth or stalled repetition is a "
+    "violation (signature = kind + scenario + top dispenso frame). On the unchanged tree the sweep reports seven "
+    "error-path defects (known_findings.json, each with a candidate patch in deliver/): waiting dynamic parallel_for "
+    "not exception-safe on the caller, skipped OnceFunction tasks not released (lead C29), pipeline generator "
+    "completion lost on skip (hang), no-wait parallel_for chunk index leak, pipeline() unwinding before its task set "
+    "is drained, ~ThreadPool stranding late continuations, Future then-link returned to the wrong pool. All sequential "
+    "harnesses of the other properties also run under ASan+UBSan.",
+    "NOT covered / trusted: memory safety of the compiled code as such is observed on the explored runs, not proved; "
+    "the models are tied to the code by the differential / trace checks of the component properties; sanitizer "
+    "runtimes; only the schedules that happen to run. Components without a Lean ledger (thread pool queues = "
+    "moodycamel, futures, pipeline, graph, timed tasks) are covered by the sanitizer runs only.",
+    "Lean 4 proof (ledger / bounds invariants of the component models) + sanitizer-checked native error-path runs",
+    "DESIGN.md §5.7 C11",
+)
+
 ALL = ["C%02d" % i for i in range(1, 49)]
 for _p in ALL:
     if _p not in CLAIMED:
